@@ -436,7 +436,10 @@ func c17FollowUp(st quickfix.MessageStore, kind string, before, after c17State, 
 		}
 	}
 	seq := st.NextSenderMsgSeqNum()
-	if kind != "reset+saveincr" && (seq <= before.hi || (seq <= after.hi && seq != before.S)) {
+	// (after an interrupted Reset whose counter already reads as after the reset a new epoch has begun: the next
+	// save is the first of it, whatever the old epoch had stored)
+	newEpoch := isReset && seq == after.S && seq != before.S
+	if kind != "reset+saveincr" && !newEpoch && (seq <= before.hi || (seq <= after.hi && seq != before.S)) {
 		return "", "" // saving below the highest saved number is outside the domain (ascending saves per epoch)
 	}
 	if err := st.SaveMessageAndIncrNextSenderMsgSeqNum(seq, msg); err != nil {
